@@ -295,12 +295,13 @@ CONFIG["C20"] = {
     "hang_is_violation": True,
     "passes": [
         {"variant": "verif"},
-        {"variant": "tsan", "params": {"rounds": 96}, "env": SAN_ENV_TSAN, "tiers": ["quick"]},
-        {"variant": "tsan", "params": {"rounds": 12000}, "env": SAN_ENV_TSAN, "tiers": ["thorough"]},
-        {"variant": "asan", "params": {"rounds": 32}, "env": SAN_ENV_ASAN, "tiers": ["quick"]},
-        {"variant": "asan", "params": {"rounds": 12000}, "env": SAN_ENV_ASAN, "tiers": ["thorough"]},
+        {"variant": "tsan", "params": {"rounds": 96, "cold": 48}, "env": SAN_ENV_TSAN, "tiers": ["quick"]},
+        {"variant": "tsan", "params": {"rounds": 12000, "cold": 2000}, "env": SAN_ENV_TSAN, "tiers": ["thorough"]},
+        {"variant": "asan", "params": {"rounds": 32, "cold": 24}, "env": SAN_ENV_ASAN, "tiers": ["quick"]},
+        {"variant": "asan", "params": {"rounds": 12000, "cold": 1000}, "env": SAN_ENV_ASAN, "tiers": ["thorough"]},
     ],
-    "rule": ("a case is a round: a pool of 3..7 generated Elements programs (bytes, witness, a transaction, and the RedeemNode / CommitNode built by the main thread), 1..3 policies with an availability pattern, 2 source texts (one broken) and 2 types with values; "
+    "rule": ("sub `cold-start-processes`: a fresh child process (same binary, same sanitizer) in which the very first jet executions, C pipeline runs and prunings happen on 16 threads released together; the one-at-a-time results are computed afterwards in the same process and compared. "
+             "sub `mixed-rounds`: a case is a round: a pool of 3..7 generated Elements programs (bytes, witness, a transaction, and the RedeemNode / CommitNode built by the main thread), 1..3 policies with an availability pattern, 2 source texts (one broken) and 2 types with values; "
              "every operation is first run one at a time on the main thread (twice: it must repeat), then 2, 3, 4, 8 or 16 threads released together each run every (item, operation) 2..5 times in their own random order with random yields. "
              "Operations: decode from bytes; decode + exec in an own environment (C jets); exec of the SHARED RedeemNode on an own machine; prune of the SHARED RedeemNode; type inference of the program in a fresh context; two nested contexts finalised in the opposite order; "
              "commit decode + string_serialize + parse; clone / iterate / drop of the SHARED nodes; the C pipeline (decode, type inference, analyses, evaluation through simplicity-sys); policy cmr / commit, satisfy + exec, sorted; Forest::parse; "
@@ -311,7 +312,7 @@ CONFIG["C20"] = {
     "assumptions": COMMON_ASSUMPTIONS + ["each thread owns its inference contexts, machines and environments, as the property states; inference contexts themselves are not shared between threads",
                                          "deadlock is observed through the driver's watchdog (3x budget + 120 s): a hang is reported as a violation for this property because its statement excludes deadlock",
                                          "interleavings are whatever the OS scheduler produces under 8 workers x up to 16 threads on 16 cores plus random yields; the evidence lists overlap counts, not a schedule enumeration"],
-    "counter_floors": {"quick": {"overlaps.same-shared-object": 25000, "ops.concurrent": 1000000}},
+    "counter_floors": {"quick": {"overlaps.same-shared-object": 25000, "ops.concurrent": 1000000, "cold.operations-compared": 30000}},
 }
 
 
